@@ -171,6 +171,28 @@ def c18(facts, rep):
                 okp = okp or (has_inst and has_alive)
         add("R18b", "evicted sample is the first (oldest) alive sample of the same instance", okp,
             "remove index is not position(|s| s.instance_handle == new.instance_handle && s.kind == Alive)", t.line)
+    # R18d: the per-instance count that decides RejectedBySamplesPerInstanceLimit / RejectedBySamplesLimit is taken after the eviction
+    nlim = 0
+    for sb, ce in fc.ces.items():
+        c = cmp_norm(E.strip_casts(ce.expr))
+        exprs = [c[1], c[2]] if c else [ce.expr]
+        if not any(E.mentions_field(x, "max_samples_per_instance") or E.mentions_field(x, "max_samples") for x in exprs):
+            continue
+        cnt_blocks = [x[3] for y in exprs for x in E.walk(y) if x[0] == "call" and (x[1].endswith("Iterator::count") or x[1].endswith("::len")) and isinstance(x[3], int)]
+        # a comparison stored in a bool local: follow its definition
+        for y in exprs:
+            y0 = E.strip_casts(y)
+            if y0[0] == "local" and not y0[2]:
+                for d in m.whole_defs(y0[1]):
+                    de = fc._def_expr(d)
+                    cnt_blocks += [x[3] for x in E.walk(de) if x[0] == "call" and x[1].endswith("Iterator::count") and isinstance(x[3], int)]
+        for cb in cnt_blocks:
+            nlim += 1
+            late = [bb for bb, _ in rem if bb in m.reachable(cb)]
+            add("R18d", "the sample count compared with the resource limit is taken after the KEEP_LAST eviction", not late,
+                "the count is computed before the oldest sample is evicted: with max_samples_per_instance == depth the new sample evicts the oldest one and is then rejected",
+                m.blocks[cb].term.line)
+    rep.floor("R18d", nlim, 1, "sample counts compared with resource limits")
     for (sb, tgt) in g_full:
         rb = [bb for bb, _ in rem]
         rets = set(m.return_blocks())
